@@ -1,1 +1,307 @@
-(* stub: to be written by group Questrade *)
+(* C20 (pages): proofs about Model/Pages.v *)
+From Coq Require Import List NArith ZArith Bool Arith Lia FinFun.
+From ACB Require Import Base.Outcome Model.Pages.
+Import ListNotations.
+Local Open Scope N_scope.
+
+(* ---------- safe_page_chunks ---------- *)
+Lemma page_ok_spec n p : page_ok n p = true <-> 1 <= p <= n.
+Proof.
+  unfold page_ok. rewrite andb_true_iff, N.leb_le, N.ltb_lt. lia.
+Qed.
+
+Lemma memN_spec p l : memN p l = true <-> In p l.
+Proof.
+  unfold memN. rewrite existsb_exists. split.
+  - intros [x [Hin Heq]]. apply N.eqb_eq in Heq. subst. exact Hin.
+  - intros Hin. exists p. split; [exact Hin | apply N.eqb_refl].
+Qed.
+
+Lemma pages_upto_spec n p : In p (pages_upto n) <-> 1 <= p <= n.
+Proof.
+  unfold pages_upto. rewrite in_map_iff. split.
+  - intros [k [Hk Hin]]. apply in_seq in Hin. subst p. lia.
+  - intros Hp. exists (N.to_nat p). split; [apply N2Nat.id|]. apply in_seq. lia.
+Qed.
+
+Lemma pages_upto_length n : length (pages_upto n) = N.to_nat n.
+Proof. unfold pages_upto. rewrite map_length, seq_length. reflexivity. Qed.
+
+Lemma pages_upto_nodup n : NoDup (pages_upto n).
+Proof.
+  unfold pages_upto. apply FinFun.Injective_map_NoDup.
+  - intros a b Hab. apply Nat2N.inj. exact Hab.
+  - apply seq_NoDup.
+Qed.
+
+Lemma safe_groups_concat n gs :
+  concat (safe_groups n gs) = filter (page_ok n) (concat gs).
+Proof.
+  induction gs as [|c r IH]; [reflexivity|].
+  cbn [safe_groups concat]. rewrite filter_app. unfold safe_chunk.
+  destruct (filter (page_ok n) c) as [|x s] eqn:E.
+  - rewrite IH. reflexivity.
+  - cbn [concat]. rewrite IH. reflexivity.
+Qed.
+
+Lemma safe_groups_nonempty n gs : Forall (fun g => g <> []) (safe_groups n gs).
+Proof.
+  induction gs as [|c r IH]; [constructor|].
+  cbn [safe_groups]. destruct (safe_chunk n c) as [|x s] eqn:E; [exact IH|].
+  constructor; [discriminate | exact IH].
+Qed.
+
+Lemma distinct_count_nodup l : distinct_count l = length (nodup N.eq_dec l).
+Proof.
+  induction l as [|p r IH]; [reflexivity|].
+  cbn [distinct_count nodup].
+  destruct (in_dec N.eq_dec p r) as [Hin|Hnin].
+  - apply memN_spec in Hin. rewrite Hin. exact IH.
+  - destruct (memN p r) eqn:E.
+    + apply memN_spec in E. contradiction.
+    + cbn [length]. rewrite IH. reflexivity.
+Qed.
+
+(* a duplicate-free sub-list of 1..n with n elements is all of 1..n *)
+Lemma full_count_covers n l :
+  (forall p, In p l -> 1 <= p <= n) ->
+  distinct_count l = N.to_nat n ->
+  forall p, 1 <= p <= n -> In p l.
+Proof.
+  intros Hsub Hcnt p Hp. rewrite distinct_count_nodup in Hcnt.
+  apply (nodup_In N.eq_dec).
+  apply (NoDup_length_incl (l := nodup N.eq_dec l) (l' := pages_upto n)).
+  - apply NoDup_nodup.
+  - rewrite pages_upto_length. lia.
+  - intros q Hq. apply nodup_In in Hq. apply pages_upto_spec. apply Hsub. exact Hq.
+  - apply pages_upto_spec. exact Hp.
+Qed.
+
+Lemma covers_full_count n l :
+  (forall p, In p l -> 1 <= p <= n) ->
+  (forall p, 1 <= p <= n -> In p l) ->
+  distinct_count l = N.to_nat n.
+Proof.
+  intros Hsub Hcov. rewrite distinct_count_nodup.
+  apply Nat.le_antisymm.
+  - rewrite <- pages_upto_length. apply NoDup_incl_length; [apply NoDup_nodup|].
+    intros q Hq. apply nodup_In in Hq. apply pages_upto_spec. apply Hsub. exact Hq.
+  - rewrite <- pages_upto_length. apply NoDup_incl_length; [apply pages_upto_nodup|].
+    intros q Hq. apply nodup_In. apply Hcov. apply pages_upto_spec. exact Hq.
+Qed.
+
+Lemma safe_found_in_range n hints p :
+  In p (concat (safe_groups n hints)) -> 1 <= p <= n.
+Proof.
+  rewrite safe_groups_concat. intros H. apply filter_In in H. apply page_ok_spec. apply H.
+Qed.
+
+Theorem chunks_in_range n hints p :
+  In p (concat (safe_page_chunks n hints)) -> 1 <= p <= n.
+Proof.
+  unfold safe_page_chunks.
+  destruct (Nat.eqb (distinct_count (concat (safe_groups n hints))) (N.to_nat n)).
+  - apply safe_found_in_range.
+  - rewrite concat_app. cbn [concat]. rewrite app_nil_r. intros H.
+    apply in_app_or in H. destruct H as [H|H].
+    + apply safe_found_in_range in H. exact H.
+    + apply filter_In in H. apply pages_upto_spec. apply H.
+Qed.
+
+Theorem chunks_cover n hints p :
+  1 <= p <= n -> In p (concat (safe_page_chunks n hints)).
+Proof.
+  intros Hp. unfold safe_page_chunks.
+  destruct (Nat.eqb (distinct_count (concat (safe_groups n hints))) (N.to_nat n)) eqn:E.
+  - apply Nat.eqb_eq in E.
+    apply (full_count_covers n); [apply safe_found_in_range | exact E | exact Hp].
+  - rewrite concat_app. cbn [concat]. rewrite app_nil_r. apply in_or_app.
+    destruct (memN p (concat (safe_groups n hints))) eqn:M.
+    + left. apply memN_spec. exact M.
+    + right. apply filter_In. split; [apply pages_upto_spec; exact Hp|]. rewrite M. reflexivity.
+Qed.
+
+Theorem chunks_nonempty n hints : Forall (fun g => g <> []) (safe_page_chunks n hints).
+Proof.
+  unfold safe_page_chunks.
+  destruct (Nat.eqb (distinct_count (concat (safe_groups n hints))) (N.to_nat n)) eqn:E.
+  - apply safe_groups_nonempty.
+  - apply Forall_app. split; [apply safe_groups_nonempty|].
+    constructor; [|constructor]. intros Hnil.
+    apply Nat.eqb_neq in E. apply E.
+    apply covers_full_count; [apply safe_found_in_range|].
+    intros p Hp.
+    destruct (memN p (concat (safe_groups n hints))) eqn:M; [apply memN_spec; exact M|].
+    exfalso.
+    assert (Hin : In p (filter (fun p => negb (memN p (concat (safe_groups n hints)))) (pages_upto n))).
+    { apply filter_In. split; [apply pages_upto_spec; exact Hp|]. rewrite M. reflexivity. }
+    rewrite Hnil in Hin. exact Hin.
+Qed.
+
+(* the hinted groups keep their order; the remainder is ascending *)
+Theorem chunks_prefix n hints :
+  exists rest, safe_page_chunks n hints = safe_groups n hints ++ rest.
+Proof.
+  unfold safe_page_chunks.
+  destruct (Nat.eqb _ _); [exists []; rewrite app_nil_r; reflexivity | eexists; reflexivity].
+Qed.
+
+(* ---------- cache ---------- *)
+Section IterProofs.
+  Variable T : Type.
+  Variable prov : N -> option T.
+  Variable txt : N -> T.
+
+  Notation cacheT := (list (option T)).
+
+  Lemma set_nth_length i v (c : cacheT) : length (set_nth T i v c) = length c.
+  Proof.
+    revert i. induction c as [|x r IH]; intros i; [reflexivity|].
+    destruct i; cbn [set_nth length]; [reflexivity | rewrite IH; reflexivity].
+  Qed.
+
+  Lemma set_nth_same i v (c : cacheT) :
+    (i < length c)%nat -> nth_error (set_nth T i v c) i = Some v.
+  Proof.
+    revert i. induction c as [|x r IH]; intros i Hi; [cbn in Hi; lia|].
+    destruct i; cbn [set_nth nth_error]; [reflexivity|]. apply IH. cbn in Hi. lia.
+  Qed.
+
+  Lemma set_nth_other i j v (c : cacheT) :
+    i <> j -> nth_error (set_nth T i v c) j = nth_error c j.
+  Proof.
+    revert i j. induction c as [|x r IH]; intros i j Hij; [reflexivity|].
+    destruct i, j; cbn [set_nth nth_error]; try reflexivity; [lia|]. apply IH. lia.
+  Qed.
+
+  Lemma resize_length (c : cacheT) len : length (resize T c len) = len.
+  Proof.
+    unfold resize. rewrite app_length, repeat_length, firstn_length. lia.
+  Qed.
+
+  Lemma resize_grow_nth (c : cacheT) len j :
+    (length c <= len)%nat -> (j < length c)%nat ->
+    nth_error (resize T c len) j = nth_error c j.
+  Proof.
+    intros Hle Hj. unfold resize. rewrite firstn_all2 by exact Hle.
+    apply nth_error_app1. exact Hj.
+  Qed.
+
+  (* the cache holds the text of page p *)
+  Definition has (c : cacheT) (p : N) : Prop :=
+    nth_error c (N.to_nat p - 1) = Some (Some (txt p)).
+
+  Lemma store_grow_has (c : cacheT) p :
+    p <> 0 -> has (store T ResizeGrow c p (txt p)) p.
+  Proof.
+    intros Hp. unfold has, store.
+    apply set_nth_same.
+    destruct (Nat.ltb (length c) (N.to_nat p - 1 + 1)) eqn:E.
+    - rewrite resize_length. lia.
+    - apply Nat.ltb_ge in E. lia.
+  Qed.
+
+  Lemma store_grow_keeps (c : cacheT) p q :
+    p <> 0 -> q <> 0 -> has c q -> has (store T ResizeGrow c p (txt p)) q.
+  Proof.
+    intros Hp Hq Hhas. destruct (N.eq_dec p q) as [->|Hne]; [apply store_grow_has; exact Hq|].
+    unfold has, store in *.
+    rewrite set_nth_other by lia.
+    assert (Hlen : (N.to_nat q - 1 < length c)%nat).
+    { apply nth_error_Some. rewrite Hhas. discriminate. }
+    destruct (Nat.ltb (length c) (N.to_nat p - 1 + 1)) eqn:E; [|exact Hhas].
+    apply Nat.ltb_lt in E. rewrite resize_grow_nth by lia. exact Hhas.
+  Qed.
+
+  Lemma fetch_all g :
+    (forall p, In p g -> prov p = Some (txt p)) -> fetch T prov g = Some (map txt g).
+  Proof.
+    induction g as [|p r IH]; intros H; [reflexivity|].
+    cbn [fetch map]. rewrite (H p (or_introl eq_refl)). rewrite IH; [reflexivity|].
+    intros q Hq. apply H. right. exact Hq.
+  Qed.
+
+  Lemma store_all_grow g : forall (c : cacheT),
+    (forall p, In p g -> p <> 0) ->
+    exists c', store_all T ResizeGrow c g (map txt g) = Some c' /\
+               (forall q, q <> 0 -> has c q -> has c' q) /\
+               (forall p, In p g -> has c' p).
+  Proof.
+    induction g as [|p r IH]; intros c Hnz.
+    - exists c. cbn. repeat split; auto. intros p [].
+    - cbn [store_all map].
+      assert (Hp : p <> 0) by (apply Hnz; left; reflexivity).
+      destruct (p =? 0) eqn:E; [apply N.eqb_eq in E; contradiction|].
+      destruct (IH (store T ResizeGrow c p (txt p))) as [c' [Hs [Hkeep Hall]]].
+      { intros q Hq. apply Hnz. right. exact Hq. }
+      exists c'. split; [exact Hs|]. split.
+      + intros q Hq Hhas. apply Hkeep; [exact Hq|]. apply store_grow_keeps; assumption.
+      + intros q [->|Hq]; [|apply Hall; exact Hq].
+        apply Hkeep; [exact Hp|]. apply store_grow_has. exact Hp.
+  Qed.
+
+  Lemma yield_group_all (c : cacheT) g :
+    (forall p, In p g -> p <> 0 /\ has c p) ->
+    yield_group T c g = (map (fun p => (p, txt p)) g, None).
+  Proof.
+    induction g as [|p r IH]; intros H; [reflexivity|].
+    cbn [yield_group map].
+    destruct (H p (or_introl eq_refl)) as [Hp Hhas].
+    destruct (p =? 0) eqn:E; [apply N.eqb_eq in E; contradiction|].
+    unfold has in Hhas. rewrite Hhas. rewrite IH; [reflexivity|].
+    intros q Hq. apply H. right. exact Hq.
+  Qed.
+
+  (* a group list the iterator can serve: no empty group, no page 0, every
+     page extractable *)
+  Definition servable (groups : list (list N)) : Prop :=
+    Forall (fun g => g <> [] /\ forall p, In p g -> p <> 0 /\ prov p = Some (txt p)) groups.
+
+  Theorem run_iter_grow_all groups : forall (c : cacheT),
+    servable groups ->
+    run_iter T prov ResizeGrow c groups
+    = (map (fun p => (p, txt p)) (concat groups), groups, IterDone).
+  Proof.
+    induction groups as [|g r IH]; intros c Hs; [reflexivity|].
+    inversion Hs as [|g' r' [Hne Hg] Hr]; subst.
+    cbn [run_iter concat].
+    rewrite fetch_all by (intros p Hp; apply Hg; exact Hp).
+    destruct (store_all_grow g c) as [c' [Hst [_ Hall]]].
+    { intros p Hp. apply Hg. exact Hp. }
+    rewrite Hst.
+    destruct g as [|p0 g0]; [contradiction Hne; reflexivity|].
+    rewrite yield_group_all.
+    2:{ intros p Hp. split; [apply Hg; exact Hp | apply Hall; exact Hp]. }
+    rewrite IH by exact Hr. rewrite map_app. reflexivity.
+  Qed.
+End IterProofs.
+
+(* the iterator over the sanitised groups of an n-page document *)
+Theorem iter_yields_all (T : Type) (prov : N -> option T) (txt : N -> T) n hints :
+  (forall p, 1 <= p <= n -> prov p = Some (txt p)) ->
+  run_iter T prov ResizeGrow [] (safe_page_chunks n hints)
+  = (map (fun p => (p, txt p)) (concat (safe_page_chunks n hints)),
+     safe_page_chunks n hints, IterDone).
+Proof.
+  intros Hprov. apply run_iter_grow_all.
+  unfold servable. apply Forall_forall. intros g Hg. split.
+  - pose proof (chunks_nonempty n hints) as Hne. rewrite Forall_forall in Hne. apply Hne. exact Hg.
+  - intros p Hp.
+    assert (Hr : 1 <= p <= n).
+    { apply (chunks_in_range n hints). apply in_concat. exists g. split; assumption. }
+    split; [lia | apply Hprov; exact Hr].
+Qed.
+
+(* The code up to 90a5400 (resize on every store): a descending group loses
+   the earlier page and the iterator indexes past the end of the cache. *)
+Definition ident_prov (n : N) (p : N) : option N := if page_ok n p then Some p else None.
+
+Lemma descending_group_always_panics :
+  run_iter N (ident_prov 4) ResizeAlways [] (safe_page_chunks 4 [[4; 2]])
+  = ([], [[4; 2]], IterPanic PSite.cache_index).
+Proof. vm_compute. reflexivity. Qed.
+
+Lemma descending_group_grow_ok :
+  run_iter N (ident_prov 4) ResizeGrow [] (safe_page_chunks 4 [[4; 2]])
+  = ([(4, 4); (2, 2); (1, 1); (3, 3)], [[4; 2]; [1; 3]], IterDone).
+Proof. vm_compute. reflexivity. Qed.
